@@ -272,6 +272,33 @@ def build(tier="quick", seed=0):
                         return Result("x", "refuted", f"batch size {batch}: rows visible to another connection after each write {seen}; whole batches give {strict} (with the commit in front of a new record type, see the known finding: {exp})", paths=total, witness={"n": n, "batch": batch})
         return Result("x", "proved", paths=total)
 
+    # ---- the commit in close() fails once (another connection holds a lock: "database is locked"), the caller survives and closes again: everything is committed then
+    def th_close_busy(batch, n, busy):
+        def th():
+            db = fresh()
+            D = it.call(RD, ["c18/b", [("varint", "n"), ("string", "s")]], {})
+            w = writer(batch)
+            for i in range(n):
+                it.call(it.getattr_(w, "write"), [it.call(D, [], {"n": i, "s": f"r{i}"})], {})
+            db.busy_commits = busy
+            errors = 0
+            for attempt in range(busy + 1):
+                try:
+                    it.call(it.getattr_(w, "close"), [], {})
+                    break
+                except PyRaise as e:
+                    errors += 1
+                    if e.cls_name != "OperationalError":
+                        raise
+            return [tuple(it.unbase(c) for c in row[:2]) for row in db.tables.get("c18/b", {"rows": []})["rows"]], errors
+
+        return th
+
+    for batch, n, busy in ((1000, 3, 1), (4, 6, 1), (2, 1, 1)):
+        name = f"C18.close.retry[batch size {batch}, {n} records, the commit of close() is refused {busy} time(s), the caller closes again]"
+        pack.add(Obligation(name, lambda tier, name=name, batch=batch, n=n, busy=busy: prove_paths(name, th_close_busy(batch, n, busy), lambda p, n=n: (p.value[0] == [(i, f"r{i}") for i in range(n)], f"after close() finally succeeded the database holds {p.value[0]!r} ({p.value[1]} refused attempt(s)); written r0..r{n - 1}"), lambda m_, p: {}),
+                            replay=lambda w, batch=batch, n=n, busy=busy: {"call": "c18_close_busy", "args": {"batch": batch, "n": n, "busy": busy}}, functions=FU, mode="concrete histories, fault injected into the connection model (assumed sqlite3 contract: a refused COMMIT leaves the transaction open)"))
+
     pack.add(Obligation("C18.batch.close[N in 0..5 x batch sizes 1, 2, 3, 1000]", run_close, replay=lambda w: {"call": "c18_batches", "args": {"n": w.get("n", 3), "batch": w.get("batch", 2)}}, functions=FU,
                         mode="concrete histories (a second record type in third position): content after close(), rows visible to an independent connection after every write"))
 
